@@ -6,20 +6,25 @@ func init() {
 	register(&Property{
 		ID: "C11",
 		Explain: "Static structural necessary conditions of 'the storage engine behaves as a map': " +
-			"(single-live-version) every success return of KVStore.Put/PutRaw passes a loop over tables[0..len-2] that retires the key (so at most one live version exists per store); " +
-			"(lookup-covers-all-tables) Get/GetRaw/GetTTL/GetLastAccess/GetKey/Delete/UpdateTTL/Check/Stats/Range/RangeHKey loop over tables[0..len-1]; " +
+			"(single-live-version) from every insert into the head table, each path to a success return of KVStore.Put/PutRaw passes a loop over tables[0..len-2] that retires the key (so at most one live version exists per store, and the retire step follows the insert that may roll over to a new table); " +
+			"(lookup-covers-all-tables, lookup-visits-every-table) Get/GetRaw/GetTTL/GetLastAccess/GetKey/Delete/UpdateTTL/Check/Stats/Range/RangeHKey loop over tables[0..len-1] and ask every table in every iteration; " +
 			"(index-insert-retires-old) every write of Table.hkeys[hkey] is dominated by Table.Delete(hkey) of the same key; " +
 			"(delete-pairing) Table.Delete removes the index entry, the scan-index offset, and moves the same n bytes from inuse to garbage on every success path; " +
 			"(compaction-source-not-destination) evictTable is called only on tables that are not in ReadWriteState and deletes from the source only after a nil PutRaw; " +
+			"(scan-index-registration) every table appended to the store is registered and, when reused, writable again; unregistering never uses a recycled table's zeroed coefficient; " +
+			"(size-boundary-agreement) every entry the store accepts fits an empty table; " +
 			"(import-error-propagates) the merge callback's error is returned by Import; " +
 			"(layout-agreement) shared with C17. " +
 			"NOT decided: functional equality with a reference map over arbitrary operation histories, bounded completion of compaction.",
 		Run: func(r *core.Run) {
 			kvSingleLiveVersion(r)
 			kvLookupCoversAllTables(r)
+			kvLookupVisitsEveryTable(r)
 			tableInsertRetiresOld(r)
 			tableDeletePairing(r)
 			kvCompactionSourceNotHead(r)
+			kvScanIndexRegistration(r)
+			kvSizeBoundaryAgreement(r)
 			kvImportPropagates(r)
 		},
 	})
